@@ -52,9 +52,9 @@ let oname_of s = if s = "none" then None else Some (name_of s)
 let ev_of s =
   match String.split_on_char ':' s with
   | ["C"; u; nm; cs] -> ECall (nat_of_hex u, (name_of nm, bool_of cs))
-  | ["R"; u; ok] -> ERet (nat_of_hex u, bool_of ok)
+  | ["R"; u; ok] | ["R"; u; ok; _] -> ERet (nat_of_hex u, bool_of ok)
   | ["S"; q] -> EStart (nat_of_hex q)
-  | ["F"; q; a] -> EFrame (nat_of_hex q, oname_of a)
+  | ["F"; q; a] | ["F"; q; a; _] -> EFrame (nat_of_hex q, oname_of a)
   | _ -> failwith ("bad event " ^ s)
 
 let verdict case impl =
@@ -96,17 +96,25 @@ let verdict case impl =
       if (obs = "ok") <> spec_ok then "viol spec_ok=" ^ string_of_bool spec_ok ^ " model=" ^ ms
       else "diff model=" ^ ms
   | ("E" :: _), [k0; evs; calls; texts; _stats] ->
-    (* 1. the trace is judged by the acceptor (C20_accept_sound: accepted => property) *)
+    (* 1. the trace.  `ok` only through the acceptor (C20_accept_sound: accepted => property;
+          C20_viol_rejected: a trace on which the property fails is never accepted).  On a rejection the
+          property predicate itself decides: prop_violb => `viol`, otherwise the acceptor was merely
+          stricter than the property (request before any call, after a failed or overlapped call, ...)
+          => `diff`. *)
     let evl = if evs = "-" then [] else split_on ';' evs in
     let tr = List.map ev_of evl in
     let k0 = oname_of k0 in
-    if not (accept_trace k0 tr) then
-      (match first_reject (acc_init k0) tr O with
-       | Some i -> Printf.sprintf "viol event=%d %s" (int_of_nat i) (List.nth evl (int_of_nat i))
-       | None -> "viol trace")
-    else
+    if not (accept_trace k0 tr) then begin
+      let where = (match first_reject (acc_init k0) tr O with
+          | Some i -> Printf.sprintf "event=%d %s" (int_of_nat i) (List.nth evl (int_of_nat i))
+          | None -> "trace") in
+      if prop_violb tr then "viol request-after-successful-use-in-other-keyspace " ^ where
+      else "diff acceptor-rejected " ^ where
+    end else
       (* 2. every USE statement text the mock received is the model's text of a VALID name that was
-            handed to use_keyspace; nothing is ever sent for an invalid name *)
+            handed to use_keyspace.  `viol` only if a text carries a character that can end or extend
+            the identifier (anything but alphabet / blank / double quote / semicolon) or an identifier
+            that was never requested as a valid name; a mere reformatting is `diff`. *)
       let callk = if calls = "-" then [] else
           List.filter_map (fun c ->
               match String.split_on_char ':' c with
@@ -114,16 +122,30 @@ let verdict case impl =
               | _ -> failwith "bad call") (split_on ';' calls) in
       let seen = if texts = "-" then [] else List.map name_of (split_on ';' texts) in
       let expected = List.map use_statement callk in
+      let is_alpha c = valid_nameb [c] in
+      let benign c = is_alpha c || List.mem (int_of_n c) [32; 34; 59] in
+      let rec idents acc cur = function
+        | [] -> List.rev (if cur = [] then acc else List.rev cur :: acc)
+        | c :: r -> if is_alpha c then idents acc (c :: cur) r
+          else idents (if cur = [] then acc else List.rev cur :: acc) [] r in
+      let requested = List.map fst callk in
+      let harmless t =
+        List.for_all benign t &&
+        (match idents [] [] t with
+         | kw :: rest -> eq_ci kw (name_of "55,53,45") && rest <> [] && List.for_all (fun i -> List.mem i requested) rest
+         | [] -> false) in
       (match List.find_opt (fun t -> not (List.mem t expected)) seen with
        | None -> "ok"
-       | Some t ->
-         (match parse_use t with
-          | Some k when List.mem k callk -> "diff statement-text " ^ str_of_name t
-          | _ -> "viol statement-text " ^ str_of_name t))
+       | Some t -> if harmless t then "diff statement-text-reformatted " ^ str_of_name t
+         else "viol statement-text " ^ str_of_name t)
+  (* use_keyspace returned Ok for a name the runner considers invalid: a violation of the second
+     sentence iff the specification says the name is invalid *)
+  | ("E" :: _), ["invalid-accepted"; nm] ->
+    if valid_nameb (name_of nm) then "diff runner-rejects-a-valid-name " ^ nm
+    else "viol invalid-name-accepted " ^ nm
+  (* nothing was observed (environment / harness cap): counted and capped by checks/c20.py *)
+  | ("E" :: _), ("not-run" :: rest) -> "ok not-run " ^ String.concat " " rest
   | ("E" :: _), ("error" :: rest) -> "error " ^ String.concat " " rest
-  (* the scenario did not run (no session: out of loopback ports). Nothing was observed, so nothing is
-     claimed; checks/c20.py counts these lines and fails the check when there are too many. *)
-  | ("E" :: _), ("skip-env" :: rest) -> "ok not-run " ^ String.concat " " rest
   | _ -> "error unknown-case"
 
 let () = run_lines verdict
